@@ -370,6 +370,7 @@ def post_pts(ip, ctx, out):
 
 # ---------------------------------------------------------------------------------
 # traces, norm and reduced density matrices (tnnorm back end: free tensor symbols, all sizes)
+from pyvc.values import is_z3
 import itertools as _it
 import time as _time
 from pyvc import tnnorm as _tn
@@ -540,6 +541,113 @@ class TraceTarget:
         return res
 
 
+# ---------------------------------------------------------------------------------
+# SystemChain.get_nn_full_liouvillians: how the single-site terms are shared among the bonds
+class LinV:
+    """formal linear combination of named operators (value domain for the assembly of the two-site Liouvillians)"""
+
+    def __init__(self, terms):
+        self.terms = {k: v for k, v in terms.items() if v != 0}
+
+    @staticmethod
+    def atom(*key):
+        return LinV({tuple(key): 1})
+
+    def key(self):
+        if len(self.terms) != 1 or list(self.terms.values())[0] != 1:
+            raise Unsupported('operator product of a linear combination')
+        return list(self.terms)[0]
+
+    def pv_binop(self, ip, opname, other, reflected=False):
+        from fractions import Fraction
+        if is_z3(other):
+            v = z3.simplify(other)
+            if z3.is_rational_value(v) or z3.is_int_value(v):
+                other = Fraction(v.numerator_as_long(), v.denominator_as_long()) if z3.is_rational_value(v) else v.as_long()
+        if opname == 'mul' and isinstance(other, Fraction):
+            return LinV({k: v * other for k, v in self.terms.items()})
+        if opname == 'mul' and isinstance(other, (int, float)) and not isinstance(other, bool):
+            c = Fraction(other).limit_denominator(1 << 20)
+            return LinV({k: v * c for k, v in self.terms.items()})
+        if opname == 'add' and isinstance(other, LinV):
+            t = dict(self.terms)
+            for k, v in other.terms.items():
+                t[k] = t.get(k, 0) + v
+            return LinV(t)
+        if opname == 'add' and isinstance(other, (int, float)) and other == 0:
+            return self
+        raise Unsupported('operator %s on a linear combination' % opname)
+
+
+class SharesTarget:
+    """real SystemChain.get_nn_full_liouvillians for chain lengths 2..6 on named operators: bond i gets its own two-site
+    term once and the single-site terms of its two sites (as L_i (x) 1 and 1 (x) L_{i+1}); over all bonds every single-site
+    term is counted exactly once (weights sum to one) and never on a bond it does not belong to"""
+
+    def __init__(self, n):
+        self.n, self.name, self.prop = n, 'chain/site-shares[n=%d]' % n, PROP
+        self.qualname = 'system.SystemChain.get_nn_full_liouvillians'
+
+    def replay(self, ob):
+        return {'func': 'uncoupled_chain_is_single_sites', 'inputs': {'obligation': ob['name']}}
+
+    def run(self, timeout_ms, tier):
+        from fractions import Fraction
+        t0 = _time.time()
+        repo = _Repo()
+        res = {'target': self.name, 'function': self.qualname, 'property': PROP, 'paths': 1, 'obligations': [], 'undecided': [], 'errors': [],
+               'flags': [], 'lib_pure': [], 'lib_used': ['numpy.kron / numpy.identity as formal operators']}
+        fref = repo.resolve(self.qualname)
+        if fref is None:
+            res['undecided'].append('contract target missing: %s' % self.qualname)
+            return res
+        res['function_info'] = _describe(fref)
+        R = Registry()
+
+        @model
+        def m_identity(ip, args, kw):
+            return LinV.atom('id', str(z3.simplify(to_int(args[0])) if not isinstance(args[0], int) else args[0]))
+
+        @model
+        def m_kron(ip, args, kw):
+            return LinV.atom('kron', args[0].key(), args[1].key())
+        R.lib_models['numpy.identity'] = m_identity
+        R.lib_models['numpy.kron'] = m_kron
+        n = self.n
+        dims = [Int('d%d' % i) for i in range(n)]
+        obj = mkobj(repo, 'system.SystemChain', _hs_dims=dims, _site_liouvillians=[LinV.atom('site', i) for i in range(n)],
+                    _nn_liouvillians=[LinV.atom('nn', i) for i in range(n - 1)])
+        _Vv.reset_fresh()
+        ip = _Interp(repo, R, [], solver_timeout_ms=timeout_ms)
+
+        def ob(name, ok, info):
+            res['obligations'].append({'name': name, 'backend': 'formal linear combinations (decided on the path)', 'flags': [], 'info': info, 'model': info,
+                                       'pc_sat': 'sat', 'result': 'discharged' if ok else 'refuted', 'seconds': 0.0})
+        try:
+            out = ip.call(fref, [obj], {})
+            sq = lambda i: str(z3.simplify(dims[i] * dims[i]))
+            weight = {j: Fraction(0) for j in range(n)}
+            ok_len = isinstance(out, list) and len(out) == n - 1
+            ob('chain/one-liouvillian-per-bond', ok_len, {'returned': len(out) if isinstance(out, list) else repr(out)})
+            for i, L in enumerate(out if ok_len else []):
+                left = ('kron', ('site', i), ('id', sq(i + 1)))
+                right = ('kron', ('id', sq(i)), ('site', i + 1))
+                terms = dict(L.terms) if isinstance(L, LinV) else {}
+                own = terms.pop(('nn', i), 0) == 1
+                wl, wr = terms.pop(left, 0), terms.pop(right, 0)
+                weight[i] += wl
+                weight[i + 1] += wr
+                ob('chain/bond-terms[bond %d]' % i, own and not terms and wl > 0 and wr > 0,
+                   {'bond': i, 'own two-site term once': own, 'foreign terms': [str(k) for k in terms], 'weights (left site, right site)': [str(wl), str(wr)]})
+            ob('chain/site-terms-counted-once', all(w == 1 for w in weight.values()), {'total weight per site': {j: str(w) for j, w in weight.items()}})
+        except Unsupported as u:
+            res['undecided'].append('unsupported construct: %s' % u)
+        except PyRaise as pr:
+            ob('unexpected-exception/' + pr.exc.typ, False, {})
+        res['seconds'] = round(_time.time() - t0, 3)
+        return res
+
+
 def rp(ob):
     return {'func': 'parallel_modes', 'inputs': {'obligation': ob['name']}}
 
@@ -569,6 +677,8 @@ def targets(tier='quick'):
         T.append(TraceTarget(n))
     T.append(TraceTarget(3, evolve=True))
     T.append(TraceTarget(3, evolve=True, query_first=True))
+    for n in (2, 3, 4, 5, 6):
+        T.append(SharesTarget(n))
     return T
 
 
